@@ -1631,7 +1631,10 @@ def check_drun_group(ctx, res, case, oracle_only=False):
     desc = {k: case[k] for k in case}
     first = outs[vias[0]] if vias[0] in outs else list(outs.values())[0]
     m0 = first['model']
-    x0 = np.array(first['events'] and [e[1] for e in first['events'] if e[0] == 'F'][0]['x'])
+    fl0 = [e[1] for e in first['events'] if e[0] == 'F']
+    if not fl0:
+        return
+    x0 = np.array(fl0[0]['x'])
     span = float(np.amax(np.abs(m0.x - x0))) if x0.shape == m0.x.shape else 0.0
     for v, o in outs.items():
         if o is first:
@@ -1757,8 +1760,11 @@ def corr_drun(ctx, res, oracle_only=False, scale=1.0):
         c = gen('single', 'nicr', k, N=7, n=5, solver='euler')
         if c:
             c['vias'] = [c['via']]; c['pair_uncached'] = False
+        c = gen('homog', 'nicr', rng.choice(['subkelvin-heat', 'subkelvin-cool', 'hold-ramp-hold']), N=6, n=3, solver='euler')
+        if c:
+            c['vias'] = [c['via']]; c['pair_uncached'] = False
     else:
-        for kind in ['subkelvin-heat', 'subkelvin-cool', rng.choice(['slow-heat', 'slow-cool']), rng.choice(['fast-heat', 'fast-cool']), 'hold-ramp-hold', 'micro', 'gradient']:
+        for kind in 2 * ['subkelvin-heat', 'subkelvin-cool', rng.choice(['slow-heat', 'slow-cool']), rng.choice(['fast-heat', 'fast-cool']), 'hold-ramp-hold', 'micro', 'gradient']:
             for model, therm in (('single', 'nicr'), ('single', 'nicral'), ('homog', 'nicr'), ('homog', 'nicral')):
                 c = gen(model, therm, kind, N=rng.randint(6, 8), n=rng.randint(4, 6))
                 if c:
